@@ -46,4 +46,4 @@ for sid in ids:
             subprocess.run(["git", "-C", "/repo", "worktree", "remove", "--force", repo])
 json.dump(results, open(os.path.join(sd, "RESULTS.json"), "w"), indent=1)
 # evidence of the unchanged tree must be regenerated after this (evidence files were overwritten)
-print("NOTE: evidence/*.json now describe the mutated runs; re-run ./check on the unchanged tree before committing.")
+print("(runs against scratch worktrees write their evidence under build/, not evidence/)")
